@@ -120,7 +120,7 @@ CHECKS = {
         technique="TLC model checking of Vectorise.tla + TLC batch trace validation of the real vectorisePositions, "
                   "blur, toRelativeGenomicPositions, PeaksSelector.selectPeaks, OpticalMap.getSequence (composed entry) and "
                   "CorrelationResult.createPeaks (per-correlation cut); TLC trace validation (Trace_Seeding over Seeding.tla) of "
-                  "the real OpticalMap.getInitialAlignment and (Trace_Worker over Worker.tla) of the messages every task "
+                  "the real OpticalMap.getInitialAlignment and InitialAlignment.refine and (Trace_Worker over Worker.tla) of the messages every task "
                   "dispatches inside the worker",
         text="TLC exhausts the sliding-window state machine (negative starts, ends before the last label, end=0), "
              "blur (all vectors up to length 7, radii 0..3), bin centres (resolutions 1..12) and top-N selection "
@@ -202,8 +202,8 @@ CHECKS = {
         engine="tlc-aligncore",
         technique="TLC model checking of the discrete placement lemma (MC_Planted over AlignCore.tla) + TLC batch "
                   "validation (Trace_Planted) of what the real pipeline reports for planted queries; TLC model checking of "
-                  "the seeding stage (MC_Seeding over Seeding.tla: exact Dice correlation, peak finding) + trace validation "
-                  "(Trace_Seeding) of the real getInitialAlignment",
+                  "the seeding and refinement stages (MC_Seeding, MC_Refine over Seeding.tla: exact correlation, peak finding) + "
+                  "trace validation (Trace_Seeding) of the real getInitialAlignment / refine",
         text="TLC proves on small lattices that an exact copy whose seed lies within maxD of the true diagonal (spacing "
              "> 2 maxD) is aligned to exactly the true pairs on both strands; the property itself is decided on "
              "planted inputs in the quantifier's domain (single reference, spacing >= 2 kb, mean >= 9 kb, windows of "
